@@ -27,6 +27,8 @@ pub enum Stdin {
     File(PathBuf),
     /// a pipe whose write end is closed at once (immediate EOF)
     Empty,
+    /// this many zero bytes through a pipe
+    Zeros(u64),
 }
 
 #[derive(Clone, Debug)]
@@ -134,6 +136,7 @@ impl Cmd {
             Stdin::Dribble(b, s) => format!("dribble({} bytes in {} pieces)", b.len(), s.len()),
             Stdin::File(p) => format!("file({})", p.display()),
             Stdin::Empty => "empty-pipe".to_string(),
+            Stdin::Zeros(n) => format!("pipe({} zero bytes)", n),
         };
         format!("kestrel {} env[{}] stdin={} stdout={:?}", a.join(" "), e.join(" "), si, self.stdout)
     }
@@ -206,6 +209,17 @@ impl Cmd {
                 match stdin_spec {
                     Stdin::Bytes(b) => {
                         let _ = h.write_all(&b);
+                    }
+                    Stdin::Zeros(n) => {
+                        let block = vec![0u8; 1 << 20];
+                        let mut left = n;
+                        while left > 0 {
+                            let k = (left as usize).min(block.len());
+                            if h.write_all(&block[..k]).is_err() {
+                                break;
+                            }
+                            left -= k as u64;
+                        }
                     }
                     Stdin::Dribble(b, sizes) => {
                         let mut off = 0;
